@@ -60,6 +60,14 @@ pub fn run_c04(cx: &Ctx) -> i32 {
             scoped.push(ast::cat(vec![Node::FlagGroup("i".into(), Box::new(c())), Node::Assert(ast::A::NotWordB), c()]));
         }
     }
+    // free-spacing mode switched on and off again in mid-pattern (the text after the switch is
+    // significant again: `#`, blanks and groups in it count)
+    for raw in [
+        "(?x)(a)(?-x)#(b)", "(?x) (a) (?-x) (b)", "(?x)a(?-x) b", "(?x)a (?-x)#b", "(?x: a )#(b)", "(?x)(a)(?-x)#(b)\\b", "(a)(?x) # c\n(?-x)#(b)", "(?x)a # c\n(?-x)#", "(?x)(?-x) (a)\\b", "(?x)a(?-x:#(b)) (a)",
+        "(?U)a*+b", "(?U)a*?b", "(?U:a+)a", "(?U)(a*)(a*)\\b", "(?U)a{1,2}b?\\b", "(?s).(?-s).", "(?m)^a$(?-m)^", "(?m:^a$)\\b.(?-m:$)",
+    ] {
+        scoped.push(Node::Raw(raw.to_string(), 2));
+    }
     // common-syntax contexts around a word boundary (the only way common syntax reaches the VM):
     // the filler is delegated as one piece next to the boundary
     let quick = cx.quick();
